@@ -3,10 +3,13 @@
  *   h_hdrmut <cases> <out> <marker> file0 [file1 ...]
  *
  * Case lines:
- *   X <fileidx> <lo> <hi>
- *       every position in [lo,hi) x every other byte value: substitute, run
- *       zck_init_read on the image.  Output: "S <fileidx> <pos> <val>" for each
- *       open that SUCCEEDED, then "XEND <fileidx> <opens> <successes>".
+ *   X <fileidx> <lo> <hi> [<mode> [<hash type> <hex digest string>]]
+ *       every position in [lo,hi) x every other byte value: substitute, open
+ *       the image.  mode 0 (default): zck_init_read; 1: zck_init_adv_read +
+ *       zck_read_lead + zck_read_header; 2: as 1 with the header pinned to the
+ *       given (genuine) hash type and digest string first.  Output:
+ *       "S <fileidx> <pos> <val> <mode>" for each open that SUCCEEDED, then
+ *       "XEND <fileidx> <opens> <successes>".
  *   P <id> <fileidx> <patches|-> <ops...>
  *       patches (comma separated, applied left to right to a copy of the file):
  *         s<pos>:<hex>  substitute bytes   d<pos>:<n>  delete n bytes
@@ -59,6 +62,21 @@ static int try_open(void) {
     int r = zck_init_read(z, memfd) ? 1 : 0;
     zck_free(&z);
     return r;
+}
+
+static int try_open_mode(int mode, int htype, const char *hexdigest) {
+    if(mode == 0) return try_open();
+    zckCtx *z = zck_create();
+    if(!z) exit(3);
+    int r = zck_init_adv_read(z, memfd) ? 1 : 0;
+    if(r && mode == 2) {
+        r = zck_set_ioption(z, ZCK_VAL_HEADER_HASH_TYPE, htype) &&
+            zck_set_soption(z, ZCK_VAL_HEADER_DIGEST, hexdigest, strlen(hexdigest));
+        if(!r) { fprintf(stderr, "pin refused\n"); exit(3); }
+    }
+    r = r && zck_read_lead(z) && zck_read_header(z);
+    zck_free(&z);
+    return r ? 1 : 0;
 }
 
 static int hv(int c) {
@@ -131,7 +149,10 @@ int main(int argc, char **argv) {
         if(!n) continue;
         if(line[0] == 'X') {
             int fi; size_t lo, hi;
-            if(sscanf(line + 1, "%d %zu %zu", &fi, &lo, &hi) != 3 || fi >= nfiles) return 3;
+            int mode = 0, htype = 0;
+            char hexd[300] = "";
+            int got = sscanf(line + 1, "%d %zu %zu %d %d %299s", &fi, &lo, &hi, &mode, &htype, hexd);
+            if(got < 3 || fi >= nfiles || (mode == 2 && got < 6)) return 3;
             char id[64];
             snprintf(id, sizeof(id), "X-%d-%zu", fi, lo);
             mark(id);
@@ -143,7 +164,7 @@ int main(int argc, char **argv) {
                     if(v == orig) continue;
                     poke(pos, (unsigned char)v);
                     opens++;
-                    if(try_open()) { succ++; fprintf(out, "S %d %zu %d\n", fi, pos, v); }
+                    if(try_open_mode(mode, htype, hexd)) { succ++; fprintf(out, "S %d %zu %d %d\n", fi, pos, v, mode); }
                 }
                 poke(pos, orig);
             }
